@@ -417,12 +417,15 @@ class LevelFn:
                         env[n.id] = ('other', f"element of {norm(it)}")
         return env
 
-    def absval(self, e, at, env):
+    def absval(self, e, at, env, depth=0):
         if isinstance(e, ast.Name):
             if e.id in env:
                 return env[e.id]
             if e.id == self.M:
                 return ('m',)
+            rv = reaching_value(e.id, at)
+            if rv is not None and isinstance(rv, (ast.Name, ast.Subscript)) and depth < 3:
+                return self.absval(rv, at, env, depth + 1)
         Y = self.src_of(e, at)
         if Y is not None:
             return ('field', Y)
@@ -793,6 +796,10 @@ def _bindings(fn, name):
                                 out.append(('unpack', st, st.value, i))
         elif isinstance(st, ast.AugAssign) and isinstance(st.target, ast.Name) and st.target.id == name:
             out.append(('aug', st, st.value, st.op))
+        elif isinstance(st, ast.Expr) and isinstance(st.value, ast.Call) and isinstance(st.value.func, ast.Attribute) and \
+                st.value.func.attr == 'update' and isinstance(st.value.func.value, ast.Name) and st.value.func.value.id == name \
+                and len(st.value.args) == 1:
+            out.append(('aug', st, st.value.args[0], ast.BitOr()))
         elif isinstance(st, (ast.For, ast.comprehension)):
             if any(isinstance(n, ast.Name) and n.id == name for n in ast.walk(st.target)):
                 out.append(('for', st, st.iter, None))
@@ -835,6 +842,24 @@ class SetDom:
         if isinstance(e, ast.BinOp) and isinstance(e.op, ast.BitOr):
             a, b = self.of(e.left), self.of(e.right)
             return None if a is None or b is None else a | b
+        if isinstance(e, ast.SetComp) and len(e.generators) == 2 and isinstance(e.elt, ast.Name) and \
+                isinstance(e.generators[1].target, ast.Name) and e.generators[1].target.id == e.elt.id and \
+                not e.generators[0].ifs and not e.generators[1].ifs and isinstance(e.generators[0].target, ast.Name):
+            da = _dsl_attr(e.generators[1].iter)
+            base = self.of(e.generators[0].iter)
+            if da and da[0] == e.generators[0].target.id and base is not None:
+                return frozenset([('fieldof', da[1], base)])
+            return None
+        if isinstance(e, ast.Call) and isinstance(e.func, ast.Attribute) and e.func.attr == 'union' and len(e.args) == 1 \
+                and isinstance(e.args[0], ast.Starred) and isinstance(e.args[0].value, (ast.ListComp, ast.GeneratorExp)):
+            c = e.args[0].value
+            head = self.of(e.func.value)
+            if len(c.generators) == 1 and not c.generators[0].ifs and isinstance(c.generators[0].target, ast.Name) and head is not None:
+                da = _dsl_attr(c.elt)
+                base = self.of(c.generators[0].iter)
+                if da and da[0] == c.generators[0].target.id and base is not None:
+                    return head | frozenset([('fieldof', da[1], base)])
+            return None
         if isinstance(e, ast.Call):
             if norm(e) == 'set()':
                 return frozenset()
@@ -1111,9 +1136,13 @@ def rule_sites(repo):
     erw_ok = False
     if len(erw) == 1 and isinstance(erw[0].func.value, ast.Name):
         loopv = erw[0].func.value.id
-        fors = [a for a in _ancestors(erw[0], addf) if isinstance(a, ast.For) and isinstance(a.target, ast.Name) and a.target.id == loopv]
+        iters = [a.iter for a in _ancestors(erw[0], addf) if isinstance(a, ast.For) and isinstance(a.target, ast.Name)
+                 and a.target.id == loopv]
+        for a in _ancestors(erw[0], addf):
+            if isinstance(a, (ast.ListComp, ast.GeneratorExp, ast.SetComp)):
+                iters += [g.iter for g in a.generators if isinstance(g.target, ast.Name) and g.target.id == loopv and not g.ifs]
         gs = [g for g in _all_guards(erw[0], addf) if g.kind in ('if', 'exit')]
-        if fors and not gs and SetDom(addf).of(fors[0].iter) == frozenset([('coll', new_obj, 'Component')]):
+        if iters and not gs and SetDom(addf).of(iters[0]) == frozenset([('coll', new_obj, 'Component')]):
             erw_ok = True
     if not erw_ok:
         r.bad(m, ADD_QUAL, '_elaborate_read_write_func for every added component', "the read/write/call sets of every component "
@@ -1168,47 +1197,83 @@ def rule_sites(repo):
     else:
         r.bad(m, DEL_QUAL, 'list slot cleared', "for a list element (non-empty _my_indices) the slot reached by the index walk "
               "must be set to None, which is what _add_component asserts before storing the new element", delf.lineno)
-    # the parent's connect_order is rebuilt without pairs touching a removed signal
+    # the parent's connect_order is rebuilt without pairs touching a removed signal (judged on the meaning of the
+    # rebuilt list: same source list, same elements, kept iff NEITHER end is a removed signal)
     dom = SetDom(delf)
-    co = [s2 for s2 in walk_no_nested(delf) if isinstance(s2, ast.For) and _dsl_attr(s2.iter) and _dsl_attr(s2.iter)[1] == 'connect_order']
-    okco = False
-    if len(co) == 1 and isinstance(co[0].target, ast.Tuple) and len(co[0].target.elts) == 2:
-        a, b = [norm(x) for x in co[0].target.elts]
-        apps = [n for n in walk_no_nested(co[0]) if isinstance(n, ast.Call) and isinstance(n.func, ast.Attribute)
-                and n.func.attr == 'append' and len(n.args) == 1 and norm(n.args[0]) == f"({a}, {b})"]
-        if len(apps) == 1:
-            exa, _ = _excluded_sets(stmt_of(apps[0]), co[0], a)
-            exb, _ = _excluded_sets(stmt_of(apps[0]), co[0], b)
-            sa_, sb_ = [dom.of(x) for x in exa], [dom.of(x) for x in exb]
-            need = ('coll', old_obj, 'Signal')
-            lst = norm(apps[0].func.value)
-            stored = [s2 for s2 in delf.body if isinstance(s2, ast.Assign) and _dsl_attr(s2.targets[0]) and
-                      _dsl_attr(s2.targets[0])[1] == 'connect_order' and norm(s2.value) == lst and
-                      _dsl_attr(s2.targets[0])[0] == _dsl_attr(co[0].iter)[0]]
-            okco = any(x and need in x for x in sa_) and any(x and need in x for x in sb_) and bool(stored)
-            if okco and not any(x and ('coll', old_obj, 'MethodPort') in x for x in sa_):
-                r.observations.append("connect_order keeps pairs of removed method ports (acknowledged TODO in the source); "
-                                      "only signal pairs are required here")
-    if not co:
-        # comprehension form:  P._dsl.connect_order = [ (a, b) for (a, b) in P._dsl.connect_order if <filter> ]
-        for s2 in delf.body:
-            if isinstance(s2, ast.Assign) and _dsl_attr(s2.targets[0]) and _dsl_attr(s2.targets[0])[1] == 'connect_order' \
-                    and isinstance(s2.value, ast.ListComp) and len(s2.value.generators) == 1:
-                gen = s2.value.generators[0]
-                if _dsl_attr(gen.iter) == _dsl_attr(s2.targets[0]) and isinstance(gen.target, ast.Tuple) and \
-                        len(gen.target.elts) == 2 and norm(s2.value.elt) == norm(gen.target):
-                    a, b = [norm(x) for x in gen.target.elts]
-                    conds = [(t, True) for t in gen.ifs]
-                    sa_ = [dom.of(x) for x in _exclusions(conds, a)[0]]
-                    sb_ = [dom.of(x) for x in _exclusions(conds, b)[0]]
-                    need = ('coll', old_obj, 'Signal')
-                    okco = any(x and need in x for x in sa_) and any(x and need in x for x in sb_)
-    if okco:
+    stores = [s2 for s2 in walk_no_nested(delf) if isinstance(s2, ast.Assign) and len(s2.targets) == 1 and
+              (_dsl_attr(s2.targets[0]) or (None, None))[1] == 'connect_order']
+    verdict, why_co, line_co = None, '', delf.lineno
+    if not stores:
+        verdict, why_co = False, "parent._dsl.connect_order is never replaced"
+    for s2 in stores:
+        base = _dsl_attr(s2.targets[0])[0]
+        line_co = s2.lineno
+        pb = [norm(v) for k, s3, v, _ in _bindings(delf, base) if k == 'assign']
+        if pb != [f"{old_obj}.get_parent_object()"]:
+            verdict, why_co = False, f"`{base}` is not the parent of the removed component"
+            break
+        builds = _list_builds(delf, s2.value)
+        if len(builds) != 1:
+            raise AnalysisError(f"R-C15-sites: the value stored into connect_order (`{norm(s2.value)[:60]}`) is outside the "
+                                f"list-construction domain")
+        b = builds[0]
+        if len(b['gens']) != 1 or _dsl_attr(_expand(b['gens'][0].iter, s2)) != (base, 'connect_order'):
+            verdict, why_co = False, "the new list is not built from the parent's current connect_order"
+            break
+        tg = b['gens'][0].target
+        if isinstance(tg, ast.Tuple) and len(tg.elts) == 2 and all(isinstance(x, ast.Name) for x in tg.elts):
+            ends = [tg.elts[0].id, tg.elts[1].id]
+            same_elt = norm(b['elt']) == f"({ends[0]}, {ends[1]})"
+        elif isinstance(tg, ast.Name):
+            ends = [f"{tg.id}[0]", f"{tg.id}[1]"]
+            same_elt = norm(b['elt']) == tg.id
+        else:
+            raise AnalysisError("R-C15-sites: connect_order loop target outside the domain")
+        if not same_elt:
+            verdict, why_co = False, f"the kept element `{norm(b['elt'])}` is not the original pair"
+            break
+        # evaluate the keep-condition for every kind of the two ends: survivor / removed signal / removed method port
+        kinds = ('survivor', 'Signal', 'MethodPort')
+
+        def holds(t, env):
+            if isinstance(t, ast.BoolOp):
+                vals = [holds(v, env) for v in t.values]
+                return all(vals) if isinstance(t.op, ast.And) else any(vals)
+            if isinstance(t, ast.UnaryOp) and isinstance(t.op, ast.Not):
+                return not holds(t.operand, env)
+            if isinstance(t, ast.Compare) and len(t.ops) == 1 and isinstance(t.ops[0], (ast.In, ast.NotIn)) and norm(t.left) in env:
+                sv = dom.of(t.comparators[0])
+                if sv is None or any(a[0] != 'coll' or a[1] != old_obj for a in sv):
+                    raise AnalysisError(f"R-C15-sites: connect_order filter consults `{norm(t.comparators[0])}`, outside the set domain")
+                inside = env[norm(t.left)] in _classes(sv)
+                return inside if isinstance(t.ops[0], ast.In) else not inside
+            raise AnalysisError(f"R-C15-sites: connect_order filter atom outside the domain: {norm(t)}")
+        wrong = []
+        keeps_mp = False
+        for ka in kinds:
+            for kb in kinds:
+                env = {ends[0]: ka, ends[1]: kb}
+                keep = all(holds(t, env) == pol for t, pol in b['conds'])
+                r.evaluations += 1
+                if 'Signal' in (ka, kb) and keep:
+                    wrong.append(f"({ka}, {kb}) kept")
+                if (ka, kb) == ('survivor', 'survivor') and not keep:
+                    wrong.append("(survivor, survivor) dropped")
+                if 'MethodPort' in (ka, kb) and 'Signal' not in (ka, kb) and keep:
+                    keeps_mp = True
+        if wrong:
+            verdict, why_co = False, "the filter is wrong for pairs " + ', '.join(wrong)
+            break
+        verdict = True
+        if keeps_mp:
+            r.observations.append("connect_order keeps pairs of removed method ports (acknowledged TODO in the source); "
+                                  "only signal pairs are required here")
+    if verdict:
         r.ok(m, DEL_QUAL, "parent connect_order rebuilt without pairs whose either end is a removed signal")
     else:
-        r.bad(m, DEL_QUAL, 'connect_order filter', "parent._dsl.connect_order must be replaced by the pairs with NEITHER end in "
-              "the removed signals; otherwise get_connect_order() (used by translation) still lists connections to deleted "
-              "signals after the replacement", delf.lineno)
+        r.bad(m, DEL_QUAL, 'connect_order filter', f"parent._dsl.connect_order must be replaced by the pairs with NEITHER end in "
+              f"the removed signals ({why_co}); otherwise get_connect_order() (used by translation) still lists connections to "
+              f"deleted signals after the replacement", line_co)
     # the two collectors used for the added / removed sets traverse the hierarchy identically
     nm = repo.mod(NAMED)
 
@@ -1476,8 +1541,12 @@ def rule_keys(repo):
         while cur is not None and not any(cur is b for b in fn.body):
             cur = parent(cur)
         return None if cur is None else [i for i, b in enumerate(fn.body) if b is cur][0]
-    built = sorted({st.target.id for st in walk_no_nested(fn) if isinstance(st, ast.AugAssign) and isinstance(st.op, ast.BitOr)
-                    and isinstance(st.target, ast.Name)})
+    cand = {n.target.id for n in walk_no_nested(fn) if isinstance(n, ast.AugAssign) and isinstance(n.target, ast.Name)} | \
+           {n.func.value.id for n in walk_no_nested(fn) if isinstance(n, ast.Call) and isinstance(n.func, ast.Attribute)
+            and n.func.attr == 'update' and isinstance(n.func.value, ast.Name)}
+    built = sorted(S for S in cand if any(k == 'aug' and isinstance(op, ast.BitOr) for k, st, v, op in _bindings(fn, S)))
+    filters = [n for n in walk_no_nested(fn) if isinstance(n, ast.Compare) and len(n.ops) == 1
+               and isinstance(n.ops[0], (ast.In, ast.NotIn))]
     never = sorted({st.targets[0].id for st in walk_no_nested(fn) if isinstance(st, ast.Assign) and len(st.targets) == 1
                     and isinstance(st.targets[0], ast.Name) and norm(st.value) == 'set()'
                     and any(b is st for b in fn.body)} - set(built))
@@ -1491,17 +1560,15 @@ def rule_keys(repo):
                   f"nothing: objects that belong to the removed subtree are treated as surviving neighbours", filt[0].lineno)
     for S in built:
         fills = [st for k, st, v, op in _bindings(fn, S) if k == 'aug']
-        uses = []
-        for n in walk_no_nested(fn):
-            if isinstance(n, ast.Compare) and len(n.ops) == 1 and isinstance(n.ops[0], (ast.In, ast.NotIn)) and \
-                    isinstance(n.comparators[0], ast.Name) and n.comparators[0].id == S:
-                uses.append(n)
-            elif isinstance(n, (ast.For, ast.comprehension)) and isinstance(n.iter, ast.Name) and n.iter.id == S:
-                uses.append(n.iter)
-        filt_uses = [u for u in uses if isinstance(u, ast.Compare)]
-        if not filt_uses and any(_dsl_attr(f.value) for f in fills):
+        fill_nodes = {id(x) for f in fills for x in ast.walk(f)}
+        uses = [n for n in walk_no_nested(fn) if isinstance(n, ast.Name) and n.id == S and isinstance(n.ctx, ast.Load)
+                and id(n) not in fill_nodes]
+        mine = dom.of(ast.Name(id=S, ctx=ast.Load()))
+        filt_uses = [c for c in filters if any(isinstance(x, ast.Name) and x.id == S for x in ast.walk(c.comparators[0]))
+                     or (mine and dom.of(c.comparators[0]) is not None and mine <= dom.of(c.comparators[0]))]
+        if not filt_uses and any(_dsl_attr(f[2]) for f in _bindings(fn, S) if f[0] == 'aug'):
             r.bad(m, DEL_QUAL, f"`{S}` collected but never used as a filter",
-                  f"`{S}` gathers `{norm(fills[0].value)}` of every removed component but no `in {S}` / `not in {S}` test reads it: "
+                  f"`{S}` gathers `{norm([b[2] for b in _bindings(fn, S) if b[0] == 'aug'][0])}` of every removed component but no `in {S}` / `not in {S}` test reads it: "
                   f"objects of that kind are handled like surviving neighbours (saved and re-connected by the parent)",
                   fills[0].lineno)
             continue
@@ -1512,7 +1579,7 @@ def rule_keys(repo):
             u = sorted(early, key=lambda n: n.lineno)[0]
             r.bad(m, DEL_QUAL, f"`{S}` used before it is filled",
                   f"`{norm(stmt_of(u))[:80]}` (line {u.lineno}) consults `{S}` before the loop that fills it "
-                  f"(`{norm(fills[-1])}`, line {fills[-1].lineno}) has run for every removed component: the filter sees an "
+                  f"(`{norm(fills[-1])[:60]}`, line {fills[-1].lineno}) has run for every removed component: the filter sees an "
                   f"incomplete set, so e.g. constants living inside the removed subtree are treated as outside neighbours, "
                   f"saved, and re-connected by the parent", u.lineno)
         elif uses:
@@ -1579,10 +1646,55 @@ def _name_template(e, root):
     return None, None, "not repr(x) / 'lit'+repr(x)[n:]"
 
 
-def _saved_lists(fn):
-    return [st.targets[0].id for st in walk_no_nested(fn)
-            if isinstance(st, ast.Assign) and len(st.targets) == 1 and isinstance(st.targets[0], ast.Name)
-            and isinstance(st.value, ast.List) and not st.value.elts and st.targets[0].id.startswith('saved_')]
+class Gen:
+    """one generator of a list construction: `for target in iter` (a For statement or a comprehension clause)"""
+    def __init__(self, target, it, node):
+        self.target, self.iter, self.node = target, it, node
+
+
+def _list_builds(fn, e, depth=0):
+    """Abstract the construction(s) of the list denoted by expression e in fn:
+    [dict(gens=[Gen outer..inner], elt=<expr>, conds=[(test, polarity)], at=<node>)]; [] when e is not a recognised
+    list construction.  Recognised: `L = []` + L.append(E) in (nested) for loops with guarding ifs / continue,
+    list / generator comprehensions, list(...), filter(lambda p: c, it)."""
+    if depth > 3:
+        return []
+    if isinstance(e, ast.Name):
+        bs = [b for b in _bindings(fn, e.id) if b[0] == 'assign']
+        empty = [b for b in bs if (isinstance(b[2], ast.List) and not b[2].elts) or norm(b[2]) == 'list()']
+        full = [b for b in bs if not any(b is x for x in empty)]
+        has_app = any(isinstance(n, ast.Call) and isinstance(n.func, ast.Attribute) and n.func.attr in ('append', 'extend')
+                      and norm(n.func.value) == e.id for n in walk_no_nested(fn))
+        if len(full) == 1 and not has_app:
+            return _list_builds(fn, full[0][2], depth + 1)      # a leftover `L = []` initialiser is dead
+        if len(bs) != 1:
+            return []
+        v = bs[0][2]
+        if (isinstance(v, ast.List) and not v.elts) or norm(v) == 'list()':
+            out = []
+            for n in walk_no_nested(fn):
+                if isinstance(n, ast.Call) and isinstance(n.func, ast.Attribute) and n.func.attr == 'append' \
+                        and norm(n.func.value) == e.id and len(n.args) == 1:
+                    st = stmt_of(n)
+                    loops = [a for a in _ancestors(st, fn) if isinstance(a, ast.For)]
+                    if not loops:
+                        return []
+                    loops.reverse()
+                    conds = [(g.test, g.polarity) for g in guards_of(st, stop=loops[0]) if g.kind in ('if', 'exit')]
+                    out.append(dict(gens=[Gen(f.target, f.iter, f) for f in loops], elt=n.args[0], conds=conds, at=st))
+            return out
+        return _list_builds(fn, v, depth + 1)
+    if isinstance(e, (ast.ListComp, ast.GeneratorExp)):
+        conds = [(t, True) for g in e.generators for t in g.ifs]
+        return [dict(gens=[Gen(g.target, g.iter, g) for g in e.generators], elt=e.elt, conds=conds, at=e)]
+    if isinstance(e, ast.Call) and isinstance(e.func, ast.Name) and e.func.id in ('list', 'tuple') and len(e.args) == 1:
+        return _list_builds(fn, e.args[0], depth + 1)
+    if isinstance(e, ast.Call) and isinstance(e.func, ast.Name) and e.func.id == 'filter' and len(e.args) == 2 \
+            and isinstance(e.args[0], ast.Lambda) and len(e.args[0].args.args) == 1:
+        lam = e.args[0]
+        tgt = ast.Name(id=lam.args.args[0].arg, ctx=ast.Store())
+        return [dict(gens=[Gen(tgt, e.args[1], lam)], elt=ast.Name(id=tgt.id, ctx=ast.Load()), conds=[(lam.body, True)], at=e)]
+    return []
 
 
 def rule_saved(repo):
@@ -1594,121 +1706,158 @@ def rule_saved(repo):
     outer = m.get_func('Component._delete_component')
     root = _root_literal(repo)
     dom = SetDom(delf)
-    lists = _saved_lists(delf)
+    rets = [n for n in walk_no_nested(delf) if isinstance(n, ast.Return) and n.value is not None]
+    if len(rets) != 1 or not isinstance(rets[0].value, ast.Tuple) or not all(isinstance(x, ast.Name) for x in rets[0].value.elts):
+        raise AnalysisError(f"{DEL_QUAL}: expected a single `return <tuple of names>`")
+    lists = [x.id for x in rets[0].value.elts]
     if len(lists) < 7:
-        raise AnalysisError(f"anchor vanished: expected the seven saved_* lists in {DEL_QUAL}, found {lists}")
+        raise AnalysisError(f"anchor vanished: expected the seven saved lists in the return of {DEL_QUAL}, found {lists}")
     foo = _params(delf)[1]
+    need_conn = {('coll', foo, 'Signal'), ('coll', foo, 'MethodPort')}
+
+    def covers_removed(S):
+        sv = dom.of(S)
+        return sv is not None and need_conn <= sv and all(a[0] == 'coll' and a[1] == foo for a in sv)
     # ---- (a)+(b) producer side
     source = {}        # list -> ('map', F) | ('graph', text)
     heads = {}         # list -> head identifier needed at eval time
     for L in lists:
-        apps = [n for n in walk_no_nested(delf) if isinstance(n, ast.Call) and isinstance(n.func, ast.Attribute)
-                and n.func.attr == 'append' and norm(n.func.value) == L]
-        if not apps:
+        builds = _list_builds(delf, ast.Name(id=L, ctx=ast.Load()))
+        if not builds:
             r.bad(m, DEL_QUAL, f"{L}.append", f"{L} is returned but never filled: the parent's references to the removed "
                   f"component's ports are lost after the replacement", delf.lineno)
             continue
-        for ap in apps:
-            st = stmt_of(ap)
-            tup = ap.args[0] if len(ap.args) == 1 else None
+        for b in builds:
+            st, tup, gens, conds = b['at'], b['elt'], b['gens'], b['conds']
+            line = getattr(st, 'lineno', delf.lineno)
             if not (isinstance(tup, ast.Tuple) and len(tup.elts) == 2):
-                raise AnalysisError(f"R-C15-saved: {norm(st)} does not append a pair")
+                raise AnalysisError(f"R-C15-saved: {L} is not built from pairs ({norm(tup)})")
             first, second = tup.elts
             head, xvar, why = _name_template(second, root)
+            shown = f"{L} element {norm(tup)}"
             if head is None or why:
-                r.bad(m, DEL_QUAL, norm(st), f"saved object name is not re-evaluable: {why}", st.lineno)
+                r.bad(m, DEL_QUAL, shown, f"saved object name is not re-evaluable: {why}", line)
                 continue
             heads.setdefault(L, set()).add(head)
-            fors = [a for a in _ancestors(st, delf) if isinstance(a, ast.For)]
-            inner = [f for f in fors if isinstance(f.target, ast.Name) and f.target.id == xvar]
+            inner = [g for g in gens if isinstance(g.target, ast.Name) and g.target.id == xvar]
             if not inner:
-                raise AnalysisError(f"R-C15-saved: cannot find the loop binding {xvar} for {norm(st)}")
-            xloop = inner[0]
-            mp = [f for f in fors if isinstance(f.target, ast.Tuple) and len(f.target.elts) == 2
-                  and isinstance(f.iter, ast.Call) and isinstance(f.iter.func, ast.Attribute) and f.iter.func.attr == 'items'
-                  and _dsl_attr(f.iter.func.value)]
+                raise AnalysisError(f"R-C15-saved: cannot find the loop binding {xvar} for {shown}")
+            xgen = inner[-1]
+            mp = [g for g in gens if isinstance(g.target, ast.Tuple) and len(g.target.elts) == 2
+                  and isinstance(g.iter, ast.Call) and isinstance(g.iter.func, ast.Attribute) and g.iter.func.attr == 'items'
+                  and _dsl_attr(_expand(g.iter.func.value, g.node) if isinstance(g.node, ast.stmt) else g.iter.func.value)]
+            atoms = [a for c in conds for a in _flatten_and(*c)]
             if mp:
                 # filtered from a map of the parent
-                mloop = mp[0]
-                base, F = _dsl_attr(mloop.iter.func.value)
-                kvar, vvar = [norm(x) for x in mloop.target.elts]
+                mgen = mp[-1]
+                base, F = _dsl_attr(_expand(mgen.iter.func.value, mgen.node) if isinstance(mgen.node, ast.stmt) else mgen.iter.func.value)
+                kvar, vvar = [norm(x) for x in mgen.target.elts]
                 pb = [norm(v) for k, s2, v, _ in _bindings(delf, base) if k == 'assign']
                 cons = f"{L} <- {base}._dsl.{F}"
                 if pb != [f"{foo}.get_parent_object()"]:
-                    r.bad(m, DEL_QUAL, cons, f"`{base}` is not the parent of the removed component", mloop.lineno)
+                    r.bad(m, DEL_QUAL, cons, f"`{base}` is not the parent of the removed component", line)
                     continue
-                if norm(xloop.iter) != vvar or norm(first) != kvar:
+                if norm(xgen.iter) not in (vvar, f"{base}._dsl.{F}[{kvar}]") or norm(first) != kvar:
                     r.bad(m, DEL_QUAL, cons, f"the saved pair ({norm(first)}, name of {xvar}) is not (key, member) of "
-                          f"{base}._dsl.{F}: the entry is restored under the wrong block / function", st.lineno)
+                          f"{base}._dsl.{F}: the entry is restored under the wrong block / function", line)
                     continue
-                ex, other = _excluded_sets(st, xloop, '')
-                memb = [g for g in guards_of(st, stop=xloop) if g.kind == 'if' and isinstance(g.test, ast.Compare)
-                        and len(g.test.ops) == 1 and norm(g.test.left) == xvar]
-                okm = False
-                for g in memb:
-                    pos = (isinstance(g.test.ops[0], ast.In) and g.polarity) or (isinstance(g.test.ops[0], ast.NotIn) and not g.polarity)
-                    sv = dom.of(g.test.comparators[0])
-                    if pos and sv is not None and {'Signal', 'MethodPort'} <= _classes(sv) and \
-                            all(a[0] == 'coll' and a[1] == foo for a in sv):
-                        okm = True
-                if not okm:
+                memb = []
+                for t, pol in atoms:
+                    if isinstance(t, ast.Compare) and len(t.ops) == 1 and norm(t.left) == xvar:
+                        pos = (isinstance(t.ops[0], ast.In) and pol) or (isinstance(t.ops[0], ast.NotIn) and not pol)
+                        if pos and covers_removed(t.comparators[0]):
+                            memb.append(t)
+                if not memb:
                     r.bad(m, DEL_QUAL, cons, f"entries are not selected by `{xvar} in <signals and method ports collected "
-                          f"from {foo}>`: references to the removed ports are not saved (or foreign ones are)", st.lineno)
+                          f"from {foo}>`: references to the removed ports are not saved (or foreign ones are)", line)
                     continue
                 source[L] = ('map', F)
                 r.ok(m, DEL_QUAL, f"{cons} filtered by membership in the removed connectables")
-                # (b) purge from the same map
+                # (b) purge from the same map, in place
                 purged = False
-                for s2 in walk_no_nested(mloop):
-                    if isinstance(s2, ast.AugAssign) and isinstance(s2.op, ast.Sub) and isinstance(s2.target, ast.Subscript):
-                        da = _dsl_attr(s2.target.value)
-                        if da and da[0] == base and isinstance(s2.value, ast.Name):
-                            tsv = s2.value.id
-                            addx = [n for n in walk_no_nested(mloop) if isinstance(n, ast.Call) and isinstance(n.func, ast.Attribute)
-                                    and n.func.attr == 'add' and norm(n.func.value) == tsv and [norm(a) for a in n.args] == [xvar]
-                                    and any(g2.node is g.node for g in memb for g2 in guards_of(stmt_of(n), stop=xloop))]
-                            fresh = [b for b in _bindings(delf, tsv) if b[0] == 'assign' and norm(b[2]) == 'set()'
-                                     and any(a is mloop for a in _ancestors(b[1], delf))]
-                            if da[1] == F and norm(s2.target.slice) == kvar and addx and fresh:
-                                purged = True
-                            elif da[1] != F and addx:
-                                r.bad(m, DEL_QUAL, norm(s2), f"entries saved from {F} are purged from {da[1]}: {F} keeps the "
-                                      f"deleted objects and {da[1]} loses live ones", s2.lineno)
-                                purged = None
+                for lp in [n for n in walk_no_nested(delf) if isinstance(n, ast.For)]:
+                    it = lp.iter
+                    meth = None
+                    if isinstance(it, ast.Call) and isinstance(it.func, ast.Attribute) and it.func.attr in ('items', 'keys') and not it.args:
+                        meth, it = it.func.attr, it.func.value
+                    da0 = _dsl_attr(_expand(it, lp))
+                    if not (da0 and da0[0] == base):
+                        continue
+                    if meth == 'items' and isinstance(lp.target, ast.Tuple) and len(lp.target.elts) == 2:
+                        k2, v2 = [norm(x) for x in lp.target.elts]
+                    elif isinstance(lp.target, ast.Name):
+                        k2, v2 = lp.target.id, None
+                    else:
+                        continue
+                    for s2 in walk_no_nested(lp):
+                        tgt = val = None
+                        if isinstance(s2, ast.AugAssign) and isinstance(s2.op, ast.Sub):
+                            tgt, val = s2.target, s2.value
+                        elif isinstance(s2, ast.Expr) and isinstance(s2.value, ast.Call) and isinstance(s2.value.func, ast.Attribute) \
+                                and s2.value.func.attr == 'difference_update' and len(s2.value.args) == 1:
+                            tgt, val = s2.value.func.value, s2.value.args[0]
+                        if tgt is None:
+                            continue
+                        if isinstance(tgt, ast.Subscript) and _dsl_attr(_expand(tgt.value, s2)) and \
+                                _dsl_attr(_expand(tgt.value, s2))[0] == base and norm(tgt.slice) == k2:
+                            Fp = _dsl_attr(_expand(tgt.value, s2))[1]
+                        elif isinstance(tgt, ast.Name) and v2 is not None and tgt.id == v2 and not isinstance(s2, ast.AugAssign):
+                            Fp = da0[1]        # v.difference_update(...) on the entry itself (`v -= ..` would only rebind v)
+                        else:
+                            continue
+                        # what is subtracted: all removed connectables, or exactly the members that were saved
+                        exact = False
+                        if isinstance(val, ast.Name) and not covers_removed(val):
+                            addx = [n for n in walk_no_nested(lp) if isinstance(n, ast.Call) and isinstance(n.func, ast.Attribute)
+                                    and n.func.attr == 'add' and norm(n.func.value) == val.id and len(n.args) == 1]
+                            fresh = [b2 for b2 in _bindings(delf, val.id) if b2[0] == 'assign' and norm(b2[2]) == 'set()'
+                                     and any(a is lp for a in _ancestors(b2[1], delf))]
+                            for n in addx:
+                                xa = norm(n.args[0])
+                                at2 = [a for g2 in guards_of(stmt_of(n), stop=lp) if g2.kind in ('if', 'exit')
+                                       for a in _flatten_and(g2.test, g2.polarity)]
+                                if fresh and any(isinstance(t, ast.Compare) and len(t.ops) == 1 and norm(t.left) == xa and
+                                                 ((isinstance(t.ops[0], ast.In) and pol) or (isinstance(t.ops[0], ast.NotIn) and not pol))
+                                                 and covers_removed(t.comparators[0]) for t, pol in at2):
+                                    exact = True
+                        if not (exact or covers_removed(val)):
+                            continue
+                        if Fp == F and da0[1] == F:
+                            purged = True
+                        elif da0[1] == F or Fp == F:
+                            r.bad(m, DEL_QUAL, norm(s2), f"entries saved from {da0[1]} are purged from {Fp}: {da0[1]} keeps the "
+                                  f"deleted objects and {Fp} loses live ones", s2.lineno)
+                            purged = None
                 if purged is True:
                     r.ok(m, DEL_QUAL, f"{base}._dsl.{F}[{kvar}] -= saved members")
                 elif purged is False:
-                    r.bad(m, DEL_QUAL, f"{base}._dsl.{F}[{kvar}] -= saved members", f"the saved members are not removed from "
+                    r.bad(m, DEL_QUAL, f"{base}._dsl.{F}[{kvar}] -= saved members", f"the saved members are not removed in place from "
                           f"{base}._dsl.{F} (aliased by the top-level all_* map): the block keeps reading/writing a "
-                          f"<deleted> signal after the replacement", mloop.lineno)
+                          f"<deleted> signal after the replacement", line)
             else:
                 # saved_connections: neighbours of a removed key in the top-level graph
-                g = [a for a in fors if isinstance(a.target, ast.Name) and norm(a.target) == norm(first) or
-                     (isinstance(a.target, ast.Name) and any(isinstance(n, ast.Name) and n.id == a.target.id for n in ast.walk(first)))]
-                nb = [a for a in fors if isinstance(a.iter, ast.Subscript) and _dsl_attr(_expand(a.iter.value, a))
-                      and norm(a.iter.slice) == xvar]
-                cons = f"{L} <- neighbours in {norm(nb[0].iter.value) if nb else '?'}"
-                if not nb or _dsl_attr(_expand(nb[0].iter.value, nb[0]))[1] != 'all_adjacency':
+                nb = [g for g in gens if isinstance(g.iter, ast.Subscript) and norm(g.iter.slice) == xvar and
+                      _dsl_attr(_expand(g.iter.value, g.node) if isinstance(g.node, ast.stmt) else g.iter.value)]
+                cons = f"{L} <- neighbours in {norm(nb[-1].iter.value) if nb else '?'}"
+                if not nb or _dsl_attr(_expand(nb[-1].iter.value, nb[-1].node) if isinstance(nb[-1].node, ast.stmt)
+                                       else nb[-1].iter.value)[1] != 'all_adjacency':
                     r.bad(m, DEL_QUAL, cons, "cross-boundary connections are not taken from the top-level adjacency of the "
-                          "removed object", st.lineno)
+                          "removed object", line)
                     continue
-                ovar = norm(nb[0].target)
+                ovar = norm(nb[-1].target)
                 rv = [n.id for n in ast.walk(first) if isinstance(n, ast.Name)]
                 if ovar not in rv:
-                    r.bad(m, DEL_QUAL, cons, f"the saved pair does not hold the surviving neighbour `{ovar}`", st.lineno)
+                    r.bad(m, DEL_QUAL, cons, f"the saved pair does not hold the surviving neighbour `{ovar}`", line)
                     continue
-                ex, other = _excluded_sets(st, nb[0], ovar)
-                xs = dom.of(xloop.iter)
-                if not any(dom.of(S) == xs for S in ex):
+                ex, other = _exclusions(conds, ovar)
+                xs = dom.of(xgen.iter)
+                if not any(dom.of(S) is not None and xs is not None and xs <= dom.of(S) for S in ex):
                     r.bad(m, DEL_QUAL, cons, "connections to neighbours that are themselves removed are saved too "
-                          "(no `other not in <removed>` guard): eval of a <deleted> name fails on re-add", st.lineno)
+                          "(no `other not in <removed>` guard): eval of a <deleted> name fails on re-add", line)
                     continue
                 source[L] = ('graph', 'all_adjacency')
                 r.ok(m, DEL_QUAL, f"{cons} of every removed key, survivors only")
     # ---- (c) return tuple
-    rets = [n for n in walk_no_nested(delf) if isinstance(n, ast.Return) and n.value is not None]
-    if len(rets) != 1 or not isinstance(rets[0].value, ast.Tuple):
-        raise AnalysisError(f"{DEL_QUAL}: expected a single `return <tuple>`")
     ret_names = [norm(e) for e in rets[0].value.elts]
     orets = [n for n in walk_no_nested(outer) if isinstance(n, ast.Return) and n.value is not None]
     if not (len(orets) == 1 and isinstance(orets[0].value, ast.Call) and norm(orets[0].value.func) == '_delete_component_internal'):
@@ -2421,7 +2570,8 @@ def rule_flush(repo):
         muts = [n for n in walk_no_nested(kf) if
                 (isinstance(n, ast.Call) and isinstance(n.func, ast.Attribute) and norm(n.func.value) == K.id
                  and n.func.attr in ('update', 'setdefault', 'pop', '__setitem__')) or
-                (isinstance(n, ast.Subscript) and isinstance(n.ctx, ast.Store) and norm(n.value) == K.id)]
+                (isinstance(n, ast.Subscript) and isinstance(n.ctx, ast.Store) and norm(n.value) == K.id) or
+                (isinstance(n, ast.AugAssign) and isinstance(n.target, ast.Name) and n.target.id == K.id)]
         binds = [(st, v) for k, st, v, _ in _bindings(kf, K.id) if k == 'assign']
         if not binds:
             raise AnalysisError(f"{kq}: no binding of {K.id}")
@@ -2933,6 +3083,91 @@ EQUIV = [
           kwargs.update( more_args )
         s._dsl.kwargs = kwargs
 """),
+    _m('connect-order-comprehension-into-local', COMP, """      new_connect_order = []
+      for (x, y) in parent._dsl.connect_order:
+        if x not in removed_signals and y not in removed_signals: # TODO method port
+          new_connect_order.append( (x, y) )
+""", """      new_connect_order = [ (x, y) for (x, y) in parent._dsl.connect_order
+                            if x not in removed_signals and y not in removed_signals ]
+"""),
+    _m('connect-order-de-morgan-continue', COMP, """        if x not in removed_signals and y not in removed_signals: # TODO method port
+          new_connect_order.append( (x, y) )
+""", """        if y in removed_signals or x in removed_signals:
+          continue
+        new_connect_order.append( (x, y) )
+"""),
+    _m('connect-order-filter-lambda', COMP, """      new_connect_order = []
+      for (x, y) in parent._dsl.connect_order:
+        if x not in removed_signals and y not in removed_signals: # TODO method port
+          new_connect_order.append( (x, y) )
+
+      parent._dsl.connect_order = new_connect_order
+""", """      parent._dsl.connect_order = list( filter( lambda pr: not ( pr[0] in removed_signals or pr[1] in removed_signals ),
+                                                parent._dsl.connect_order ) )
+"""),
+    _m('connect-order-split-ifs', COMP, """        if x not in removed_signals and y not in removed_signals: # TODO method port
+          new_connect_order.append( (x, y) )
+""", """        if x not in removed_signals:
+          if not ( y in removed_signals ):
+            new_connect_order.append( (x, y) )
+"""),
+    _m('saved-list-as-comprehension-with-separate-purge', COMP, """      for blk, reads in parent._dsl.upblk_reads.items():
+        assert blk in top._dsl.all_upblk_reads
+        to_save = set()
+        for x in reads:
+          if x in removed_connectables:
+            to_save.add( x )
+            saved_upblk_reads.append( (blk, repr(x)) )
+        parent._dsl.upblk_reads[blk] -= to_save
+""", """      saved_upblk_reads = [ (blk, repr(sig)) for blk, reads in parent._dsl.upblk_reads.items()
+                                             for sig in reads if sig in removed_connectables ]
+      for blk in parent._dsl.upblk_reads:
+        parent._dsl.upblk_reads[blk] -= removed_connectables
+"""),
+    _m('removed-consts-as-set-comprehension', COMP, """      removed_consts = set()
+      # A placeholder may contain components too, so always uncollect
+      for x in removed_components:
+        # remove consts
+        removed_consts |= x._dsl.consts
+        # uncollect variables
+        top._uncollect_vars( x )
+""", """      removed_consts = { k for comp in removed_components for k in comp._dsl.consts }
+      for x in removed_components:
+        top._uncollect_vars( x )
+"""),
+    _m('removed-consts-filled-by-update-and-hoisted-filter', COMP, """        removed_consts |= x._dsl.consts
+        # uncollect variables
+        top._uncollect_vars( x )
+""", """        removed_consts.update( x._dsl.consts )
+        # uncollect variables
+        top._uncollect_vars( x )
+      going_away = removed_connectables | removed_consts
+"""),
+    _m('rw-elaboration-as-comprehension', COMP, """    for c in added_components:
+      c._elaborate_read_write_func()
+""", """    [ comp._elaborate_read_write_func() for comp in added_components ]
+"""),
+    _m('top-call-table-through-local-alias', L2, "        s._dsl.all_upblk_calls[ blk ] = calls\n",
+       "        blk_calls = calls\n        s._dsl.all_upblk_calls[ blk ] = blk_calls\n"),
+    _m('connect-guard-flipped-if-else', L3, """    if o1 not in s._dsl.adjacency[o2]:
+      assert o2 not in s._dsl.adjacency[o1]
+      s._dsl.adjacency[o1].add( o2 )
+      s._dsl.adjacency[o2].add( o1 )
+
+      s._dsl.connect_order.append( (o1, o2) )
+""", """    if o1 in s._dsl.adjacency[o2]:
+      pass
+    else:
+      assert o2 not in s._dsl.adjacency[o1]
+      s._dsl.adjacency[o1].add( o2 )
+      s._dsl.adjacency[o2].add( o1 )
+      s._dsl.connect_order.append( (o1, o2) )
+"""),
+    _m('construct-record-inlined', COMP, """      s.construct( *s._dsl.args, **kwargs )
+
+      # We hook up""", """      s.construct( *s._dsl.args, **s._dsl.kwargs )
+
+      # We hook up"""),
     _m('connect-adjacency-alias', L3, "    if o1 not in s._dsl.adjacency[o2]:\n      assert o2 not in s._dsl.adjacency[o1]\n      s._dsl.adjacency[o1].add( o2 )\n      s._dsl.adjacency[o2].add( o1 )",
        "    adj = s._dsl.adjacency\n    if o1 not in adj[o2]:\n      assert o2 not in adj[o1]\n      adj[o1].add( o2 )\n      s._dsl.adjacency[o2].add( o1 )"),
     _m('connect-neighbour-set-locals', L3, "      s._dsl.adjacency[o1].add( o2 )\n      s._dsl.adjacency[o2].add( o1 )\n\n      s._dsl.connect_order",
